@@ -111,17 +111,64 @@ func (h *harness) crashcheck(k int) (event, error) {
 	defer os.RemoveAll(copyBase)
 
 	cut := ""
+	midSave := false
 	if k >= 100 {
-		// crash inside the most recent state save, between "new state file written and closed" and "old state
-		// file removed": both files are on disk. Only meaningful directly after the operation that saved.
+		// crash inside the most recent state save: a PREFIX of its file operations has happened. The order of the
+		// operations (create the new file, write it, close it, remove the old file) is read from the source of
+		// saveState on every run (harness/cmd/c12extract -> VERIF_SAVE_ORDER); the copy shows the disk after all of
+		// them, the old file is known from the observation of the directory around the call. Prefix lengths: 100 ->
+		// all but the last operation, 101 -> two operations, 102 -> one. Only meaningful directly after the call
+		// that saved.
+		v := k - 100
 		k = 0
+		order := strings.Split(os.Getenv("VERIF_SAVE_ORDER"), ",")
+		if len(order) != 4 {
+			order = []string{"create", "write", "close", "remove"}
+		}
 		if h.removedState != nil && h.removedAt == h.lineNo-1 {
+			j := []int{3, 2, 1}[v%3]
+			done := map[string]bool{}
+			for _, op := range order[:j] {
+				done[op] = true
+			}
 			_, _, _, stateDir, _ := h.dirs()
 			rel, _ := filepath.Rel(h.base, stateDir)
-			if err := os.WriteFile(filepath.Join(copyBase, rel, h.removedState.name), h.removedState.data, 0644); err != nil {
-				return nil, err
+			ents, _ := os.ReadDir(filepath.Join(copyBase, rel))
+			newest := ""
+			for _, e := range ents {
+				if strings.HasSuffix(e.Name(), ".state.json") && e.Name() > newest {
+					newest = e.Name()
+				}
 			}
-			cut = "state-dup/" + h.removedState.name
+			what := []string{}
+			if newest != "" {
+				np := filepath.Join(copyBase, rel, newest)
+				switch {
+				case !done["create"]:
+					os.Remove(np)
+					what = append(what, "new-absent")
+				case !done["write"]:
+					// inside the write: nothing or half of the text
+					at := int64(0)
+					if fi, err := os.Stat(np); err == nil && h.lineNo%2 == 0 {
+						at = fi.Size() / 2
+					}
+					os.Truncate(np, at)
+					what = append(what, fmt.Sprintf("new-cut@%d", at))
+				default:
+					what = append(what, "new-complete")
+				}
+			}
+			if !done["remove"] {
+				if err := os.WriteFile(filepath.Join(copyBase, rel, h.removedState.name), h.removedState.data, 0644); err != nil {
+					return nil, err
+				}
+				what = append(what, "old-present")
+			} else {
+				what = append(what, "old-removed")
+			}
+			cut = "state-save[" + strings.Join(order[:j], ",") + "]/" + strings.Join(what, ",")
+			midSave = true
 		}
 	}
 	if k > 0 {
@@ -195,8 +242,9 @@ func (h *harness) crashcheck(k int) (event, error) {
 	}
 	ev["cut"] = cut
 	ev["disk"] = describeDisk(copyBase, cut)
-	if strings.HasPrefix(cut, "state-dup/") {
-		cut = "" // for the oracles below: nothing was cut, everything acknowledged must be there
+	cutLabel := cut
+	if midSave {
+		cut = "" // for the oracles below: every tag acknowledged must be there; settings: as before or as after the call
 	}
 
 	// the recovered service gets its own gates
@@ -301,7 +349,7 @@ func (h *harness) crashcheck(k int) (event, error) {
 		for _, t := range liveTags {
 			r, ok := rt[t.Name]
 			if !ok {
-				h.complain("C12", "acknowledged tag %s is gone after a restart from the crash copy (cut %q)", t.Name, cut)
+				h.complain("C12", "acknowledged tag %s is gone after a restart from the crash copy (cut %q)", t.Name, cutLabel)
 				continue
 			}
 			if r.Definition != t.Definition || r.Color != t.Color || strings.Join(r.Converters, ",") != strings.Join(t.Converters, ",") {
@@ -315,19 +363,22 @@ func (h *harness) crashcheck(k int) (event, error) {
 	}
 	// --- acknowledged settings and endpoints survive
 	if cut == "" || !strings.HasPrefix(cut, "state/") {
-		if c := rh.mgr.Config(); c != liveConfig {
-			h.complain("C12", "setting differs after restart (cut %q): %+v, acknowledged %+v", cut, c, liveConfig)
+		// (a kill inside the state save of the call just made: the call was not acknowledged yet, the restart may
+		// show what was acknowledged before it or what it asked for — Pk/Props/C12.lean saveState_crash_safe)
+		if c := rh.mgr.Config(); c != liveConfig && !(midSave && c == h.preConfig) {
+			h.complain("C12", "setting differs after restart (cut %q): %+v, acknowledged %+v", cutLabel, c, liveConfig)
 		}
-		if hooks := rh.mgr.ListPcapProcessorWebhooks(); strings.Join(hooks, ",") != strings.Join(liveHooks, ",") {
-			h.complain("C12", "webhooks differ after restart (cut %q): %v, acknowledged %v", cut, hooks, liveHooks)
+		if hooks := rh.mgr.ListPcapProcessorWebhooks(); strings.Join(hooks, ",") != strings.Join(liveHooks, ",") &&
+			!(midSave && strings.Join(hooks, ",") == strings.Join(h.preHooks, ",")) {
+			h.complain("C12", "webhooks differ after restart (cut %q): %v, acknowledged %v", cutLabel, hooks, liveHooks)
 		}
 		eps := []string{}
 		for _, e := range rh.mgr.ListPcapOverIPEndpoints() {
 			eps = append(eps, e.Address)
 		}
 		sort.Strings(eps)
-		if strings.Join(eps, ",") != strings.Join(liveEndpoints, ",") {
-			h.complain("C12", "pcap-over-ip endpoints differ after restart (cut %q): %v, acknowledged %v", cut, eps, liveEndpoints)
+		if strings.Join(eps, ",") != strings.Join(liveEndpoints, ",") && !(midSave && strings.Join(eps, ",") == strings.Join(h.preEndpoints, ",")) {
+			h.complain("C12", "pcap-over-ip endpoints differ after restart (cut %q): %v, acknowledged %v", cutLabel, eps, liveEndpoints)
 		}
 	}
 	// --- every stream of a completed import is visible under its old id, with its data
